@@ -128,9 +128,19 @@ func (s *Service) ScheduleJob(ctx context.Context,
 			finaliseJob(job)
 			job.active.Store(false)
 		case <-time.After(time.Until(runtime)):
-			// It is possible that the job is already active, so check that first before proceeding.
+			// It is possible that the job has already been claimed by RunJob() or RunJobIfExists(), with the
+			// timer winning the race against the run signal.  The claimant has been told that the job will run
+			// (and has removed it from the jobs list), so take the run signal, which is sent immediately after the
+			// job is marked active, and run the job as if the signal had been selected.  The job function only ever
+			// runs in this goroutine so there is no danger of it running twice.
 			if job.active.Load() {
-				s.log.Trace().Str("job", name).Time("scheduled", runtime).Msg("Already running; job not running")
+				<-job.runCh
+				s.log.Trace().Str("job", name).Time("scheduled", runtime).Msg("Run triggered at scheduled time; job running")
+				monitorJobStartedOnSignal(class)
+				jobFunc(ctx)
+				s.log.Trace().Str("job", name).Time("scheduled", runtime).Msg("Job complete")
+				finaliseJob(job)
+				job.active.Store(false)
 				break
 			}
 			s.jobsMutex.Lock()
@@ -229,7 +239,16 @@ func (s *Service) SchedulePeriodicJob(ctx context.Context,
 				job.active.Store(false)
 			case <-time.After(time.Until(runtime)):
 				if job.active.Load() {
-					s.log.Trace().Str("job", name).Time("scheduled", runtime).Msg("Already running; job not running")
+					// The job has been claimed by RunJob() or RunJobIfExists(), with the timer winning the race
+					// against the run signal.  Take the run signal, which is sent immediately after the job is
+					// marked active, and run the job now rather than going round the loop, which would lose the
+					// run if there are no more instances.
+					<-job.runCh
+					s.log.Trace().Str("job", name).Time("scheduled", runtime).Msg("Run triggered at scheduled time; job running")
+					monitorJobStartedOnSignal(class)
+					jobFunc(ctx)
+					s.log.Trace().Str("job", name).Time("scheduled", runtime).Msg("Job complete")
+					job.active.Store(false)
 					continue
 				}
 				job.active.Store(true)
